@@ -9,6 +9,9 @@ CLAIMED = {
  "C08": ("exploration", "4.5", "seeded syscall-level interleaving search of 2-3 actors (own DiskRefsContainer/Repo each) over the ref API and committers on one branch; recorded invoke/return histories checked for linearizability against a sequential ref-map model by brute force, final on-disk state read by a fresh process; commit scenarios check every acknowledged commit is an ancestor of the final tip",
          "schedules sampled not enumerated; multi-name reads judged per name; two recorded findings (known_findings.json) suppress only histories showing their specific interleaving mechanism",
          "deterministic simulation: baton-passing actors over simfs, seeded schedules (uniform/burst/PCT/targeted), linearizability checking of recorded histories against a reference model"),
+ "C09": ("fault_enumeration", "4.6", "per seeded scenario (generated repository x one of 24 repository-changing operations) every boundary before a mutating system call is enumerated as a crash point; the disk image of a process crash (and, with core.fsyncObjectFiles, of a power loss with un-fsynced data lost/torn/zeroed) is materialised and opened by a fresh Repo; refs must be old-or-new and name intact complete objects, everything reachable before must be intact, nothing visible may fail its hash, index/config old-or-new, a follow-up operation must work",
+         "crash points exhaustive within a scenario, scenarios sampled; metadata operations assumed ordered and durable (ext4-ordered-like); directory fsync not modelled",
+         "deterministic simulation: syscall journal over simfs, exhaustive crash-point enumeration per scenario with process-crash and power-loss disk models, recovery oracle against an object/ref model"),
 }
 NA = {
  "C01": "pure function of object field values / setter order: no schedule, clock, fault or I/O seam for a simulator to own (DESIGN.md section 5)",
